@@ -334,7 +334,30 @@ class Interp:
             return args[0]
         if not has_sym(args) and not has_sym(kwargs) and not has_sym(getattr(f, "__self__", None)):
             return self.native(f, args, kwargs)
+        s = getattr(f, "__self__", None)
+        nm = getattr(f, "__name__", "")
+        # methods of plain containers that never look inside their (possibly symbolic) elements
+        if type(s) is list and nm in ("append", "extend", "insert", "pop", "clear", "copy", "reverse") and not kwargs:
+            if nm in ("insert", "pop") and args and has_sym(args[0]):
+                raise OutOfSubset(f"list.{nm} at a symbolic index")
+            if nm == "extend":
+                return self.native(f, (_m.iter_concrete(self, args[0]),), {})
+            return self.native(f, args, kwargs)
+        if type(s) is dict and nm in ("get", "setdefault", "pop", "items", "keys", "values", "copy", "clear", "update"):
+            if _m.SYMKEYS in s:
+                raise OutOfSubset(f"dict.{nm} on a dict with symbolic keys")
+            if nm in ("get", "setdefault", "pop") and args and has_sym(args[0]):
+                raise OutOfSubset(f"dict.{nm} with a symbolic key")
+            if nm == "update" and (len(args) != 1 or not isinstance(args[0], dict) or kwargs):
+                raise OutOfSubset("dict.update from a non-dict")
+            r = self.native(f, args, kwargs)
+            if nm in ("get", "pop", "setdefault") and isinstance(r, Maybe):
+                return _m._demaybe(self, r, args[0]) if len(args) < 2 or nm == "setdefault" else self._maybe_default(r, args[1])
+            return r
         raise OutOfSubset(f"call of {f!r} with symbolic arguments has no model or contract")
+
+    def _maybe_default(self, r, default):
+        return r.val if self.truth(SBool(r.present)) else default
 
     def _native_ok(self, f):
         return True
